@@ -4,6 +4,7 @@ import (
 	"fmt"
 	"go/ast"
 	"go/token"
+	"go/types"
 	"golang.org/x/tools/go/packages"
 	"os"
 	"sort"
@@ -119,7 +120,23 @@ func siblingDiffs(all map[string][]cmpSite) []sibDiff {
 				}
 			}
 			cancel(func(e ent) string { return e.named })
-			cancel(func(e ent) string { return e.abs }) // renamed locals
+			// renamed locals: equal once locals are named by type — unless the name the predecessor uses is still a
+			// variable of this copy, in which case another value of the same type was put in its place
+			forkFn := f + "." + name
+			for i := 0; i < len(bs); i++ {
+				for j := 0; j < len(fs); j++ {
+					if bs[i].abs != fs[j].abs {
+						continue
+					}
+					if sw := stillDeclaredIn(forkFn, []string{bs[i].named}, []string{fs[j].named}); len(sw) > 0 {
+						continue
+					}
+					bs = append(bs[:i], bs[i+1:]...)
+					fs = append(fs[:j], fs[j+1:]...)
+					i--
+					break
+				}
+			}
 			for _, e := range bs {
 				d.minus = append(d.minus, e.abs)
 			}
@@ -298,4 +315,39 @@ func init() {
 	if len(os.Args) > 1 && os.Args[1] == "siblingcalls" {
 		os.Exit(cmdSiblingCalls())
 	}
+}
+
+// stillDeclaredIn: identifiers mentioned by want but not by got that are still declared as variables in fn.
+func stillDeclaredIn(fn string, want, got []string) []string {
+	d, ok := cmpDecls[fn]
+	if !ok {
+		return nil
+	}
+	have := map[string]bool{}
+	for _, g := range got {
+		for _, t := range identTokRe.FindAllString(g, -1) {
+			have[t] = true
+		}
+	}
+	var out []string
+	for _, w := range want {
+		for _, t := range identTokRe.FindAllString(w, -1) {
+			if have[t] {
+				continue
+			}
+			decl := false
+			ast.Inspect(d.fd, func(n ast.Node) bool {
+				if id, ok := n.(*ast.Ident); ok && id.Name == t && d.pk.TypesInfo.Defs[id] != nil {
+					if _, isVar := d.pk.TypesInfo.Defs[id].(*types.Var); isVar {
+						decl = true
+					}
+				}
+				return !decl
+			})
+			if decl {
+				out = append(out, t)
+			}
+		}
+	}
+	return out
 }
